@@ -12,7 +12,7 @@ EV == Name("e")
 KC == Attr(Name("K"), "C")
 KD == Attr(Attr(Name("K"), "Inner"), "D")
 AM == Attr(Name("aux"), "M")
-Shapes == {"S1", "S2", "S3", "S4", "S5", "S6", "S7", "S9", "S10", "S11", "S12", "S13", "S14", "S15", "S16", "S17", "S18", "S19", "S20", "S21", "S22"}
+Shapes == {"S1", "S2", "S3", "S4", "S5", "S6", "S7", "S9", "S10", "S11", "S12", "S13", "S14", "S15", "S16", "S17", "S18", "S19", "S20", "S21", "S22", "S23"}
 ShapeTerm(sh) ==
     CASE sh = "S1"  -> Lam1("e", Meth(EV, "f", <<Name("v")>>))
       [] sh = "S2"  -> Lam1("e", Meth(EV, "f", <<Name("G")>>))
@@ -46,6 +46,10 @@ ShapeTerm(sh) ==
       [] sh = "S21" -> Lam1("e", CallP(T("lam", "", 1, <<"j", "G">>, <<BinOp("+", Attr(Name("j"), "pt"), Name("G")), Name("G")>>), <<EV>>))
       \* the iterable of a comprehension is evaluated in the enclosing scope: [G.pt for G in e.f(G)]
       [] sh = "S22" -> Lam1("e", Comp("list", "G", Attr(Name("G"), "pt"), Meth(EV, "f", <<Name("G")>>), <<>>))
+      \* a default value that is itself a lambda whose parameter is named like a global the body of the outer lambda uses
+      [] sh = "S23" -> Lam1("e", CallP(T("lam", "", 1, <<"j", "c">>,
+                                         <<BinOp("+", CallP(Name("c"), <<Name("j")>>), Name("G")),
+                                           Lam1("G", BinOp("*", Name("G"), IntC(2)))>>), <<EV>>))
       [] sh = "S14" -> Lam1("G", Tup(<<Comp("list", "G", Attr(Name("G"), "pt"), Attr(Name("G"), "jets"), <<>>),
                                       Name("G")>>))
       [] OTHER      -> Lam1("e", Comp("list", "j", BinOp("+", Attr(Name("j"), "pt"), Name("G")), Attr(EV, "jets"),
